@@ -1162,3 +1162,39 @@ fn test_flat_compile() -> ExResult<()> {
     }
     Ok(())
 }
+
+/// Re-exports and wrappers for out-of-tree verification harnesses, see feature `verif_hooks`.
+#[cfg(feature = "verif_hooks")]
+#[doc(hidden)]
+pub mod verif_hooks {
+    use std::fmt::Debug;
+
+    pub use super::detail::{FlatNode, FlatNodeKind, FlatOp};
+    use super::ExprIdxVec;
+    use crate::ExResult;
+
+    pub fn eval_flatex_cloning<T: Clone + Debug + Default>(
+        vars: &[T],
+        nodes: &[FlatNode<T>],
+        ops: &[FlatOp<T>],
+        prio_indices: &[usize],
+    ) -> ExResult<T> {
+        super::detail::eval_flatex_cloning(vars, nodes, ops, prio_indices)
+    }
+
+    pub fn eval_flatex_consuming_vars<T: Clone + Debug + Default>(
+        vars: &mut [T],
+        nodes: &[FlatNode<T>],
+        ops: &[FlatOp<T>],
+        prio_indices: &[usize],
+    ) -> ExResult<T> {
+        super::detail::eval_flatex_consuming_vars(vars, nodes, ops, prio_indices)
+    }
+
+    pub fn prioritized_indices_flat<T: Clone + Debug>(
+        ops: &[FlatOp<T>],
+        nodes: &[FlatNode<T>],
+    ) -> ExprIdxVec {
+        super::detail::prioritized_indices_flat(ops, nodes)
+    }
+}
